@@ -710,7 +710,7 @@ struct Case {
         thr = -kInf;
       // State of the filtration cache when the prune happens (the prune itself needs no cache and never reads it):
       // none / complete / without the +inf simplices / stale (built before later insertions) / custom order or ignorer.
-      static const unsigned state_table[] = {0, 1, 3, 2, 4, 1, 3, 5};
+      static const unsigned state_table[] = {0, 1, 3, 2, 4, 2, 3, 5};
       unsigned cache_state = state_table[t.u8() % 8];
       thr = prepare_cache_for_prune(st, cur, cache_state, thr);
       ctx.desc << " prune_above_filtration(" << stc::fmt(thr) << ")\n";
